@@ -114,6 +114,37 @@ Definition t2_write (m d : list Z) : res unit * list write :=
   | Err e => (Err e, []) | Crash c => (Crash c, []) | Hang => (Hang, [])
   end.
 
+(* ---- several assignments tag.ndef.octets = d on the same tag object: the NDEF object keeps the layout it
+        found when tag.ndef was first read, and its memory reader keeps (data_from_tag, data_in_cache).
+        [faults]: the i-th attempt fails at its k-th command with the given fate (an attempt with fewer
+        commands completes). ---- *)
+Definition t2_attempt (m : list Z) (L : layout) (from cache d : list Z) (k : option nat) (f : fate)
+  : res unit * (list Z * list Z * list Z) * list write :=
+  if negb (l_wr L) then (Crash AttributeErr, (m, from, cache), [])
+  else if l_cap L <? len d then (Err ValueError, (m, from, cache), [])
+  else run_attempt 4 (len m) m from cache (t2_phases L d) k f.
+Fixpoint t2_attempts (L : layout) (d : list Z) (faults : list (nat * fate)) (st : list Z * list Z * list Z)
+  : list Z * list Z * list Z :=
+  match faults with
+  | [] => st
+  | (k, f) :: r =>
+    let '(m, from, cache) := st in
+    t2_attempts L d r (snd (fst (t2_attempt m L from cache d (Some k) f)))
+  end.
+(* state of tag and reader after the faulted attempts, starting with a fresh reader on memory m *)
+Definition t2_after (m d : list Z) (faults : list (nat * fate)) : option (layout * (list Z * list Z * list Z)) :=
+  match t2_reader (view m) with
+  | Ok (Some L) => Some (L, t2_attempts L d faults (m, view m, view m))
+  | _ => None
+  end.
+(* the next, undisturbed attempt *)
+Definition t2_retry (m d : list Z) (faults : list (nat * fate)) : option (res unit * list Z * list write) :=
+  match t2_after m d faults with
+  | Some (L, (m1, from, cache)) =>
+    let p := t2_attempt m1 L from cache d None Lost in Some (fst (fst p), m1, snd p)
+  | None => None
+  end.
+
 (* ---- Type2Tag._format(version, wipe) (after the repair c03-tt2-format-skip-bytes);
         returns True (Some) / False (None) and the WRITE commands ---- *)
 Fixpoint wipe_loop (skip : ranges) (a : Z) (n : nat) (w : Z) (c : list Z) : res (list Z) :=
@@ -194,4 +225,21 @@ Definition t2_write_unrepaired (m d : list Z) : res unit * list write :=
     else run_phases 4 (len m) em
            [ph_len0 L; ph_data L d; if len d <? 255 then ph_len_short L d else ph_len_long_unrepaired L d] []
   | _ => (Crash NoneAttr, [])
+  end.
+(* one failed attempt (fault at command k1), then the retry: reader state after the failure, and the fresh reader's
+   view after every cut point of the retry *)
+Definition t2_retry_obs (m d : list Z) (k1 : nat) (f : fate) :=
+  match t2_after m d [(k1, f)] with
+  | Some (L, (m1, from, cache)) =>
+    let p := t2_attempt m1 L from cache d None Lost in
+    Some (m1, from, cache, fst (fst p), snd p, map t2_fresh (cut_mems m1 (snd p)))
+  | None => None
+  end.
+(* a second assignment with OTHER data d2 on the same tag object after an attempt with d1 that failed at command k1 *)
+Definition t2_rewrite_obs (m d1 : list Z) (k1 : nat) (f : fate) (d2 : list Z) :=
+  match t2_after m d1 [(k1, f)] with
+  | Some (L, (m1, from, cache)) =>
+    let p := t2_attempt m1 L from cache d2 None Lost in
+    Some (m1, fst (fst p), snd p, map t2_fresh (cut_mems m1 (snd p)))
+  | None => None
   end.
